@@ -1,10 +1,12 @@
 package props
 
 import (
+	"os"
 	"path/filepath"
 	"strings"
 	"testing"
 
+	"verif/internal/fastload"
 	"verif/internal/h"
 	"verif/internal/synth"
 
@@ -67,16 +69,14 @@ func goOutput(c c01Case, ld anyLoaded) (text string, oc outcome) {
 // fixImports applies the pass behind `goimports -w` (x/tools/imports.Process)
 // with the file placed in the package directory next to its sibling files.
 func fixImports(spec *synth.Spec, ld *loadedSpec, name, text string) (string, error) {
-	dir := filepath.Join(scratch(), "c01", spec.Root().Dir())
-	files := map[string]string{}
-	for abs, src := range ld.ld.Sources {
-		if filepath.Dir(abs) == filepath.Join(ld.ld.RootDir, spec.Root().Dir()) {
-			files[filepath.Base(abs)] = src
-		}
-	}
-	if err := writeFiles(dir, files); err != nil {
+	// the whole synthesised module is written out, so that the import fixer resolves
+	// sub-packages exactly as `goimports -w` does inside the user's module
+	root := filepath.Join(scratch(), "c01mod")
+	os.RemoveAll(root)
+	if _, err := fastload.WriteModule(spec, root); err != nil {
 		return "", h.Inconcf("scratch: %v", err)
 	}
+	dir := filepath.Join(root, spec.Root().Dir())
 	out, err := imports.Process(filepath.Join(dir, name), []byte(text), nil)
 	return string(out), err
 }
